@@ -113,7 +113,7 @@ Definition merge_sel (h : heap) (v : vsel) : vsel :=
       match first_replacement h (name_matchers (vms v)) (vms v) with
       | Some top =>
           mkVS top (vorig v) (voff v) (vat v)
-               (Some (filter (fun m => negb (contains_matcher top m)) (vms v)))
+               (Some (filter (fun m => negb (contains_matcher top m)) (vms v))) (vsyn v)
       | None => v
       end
   end.
@@ -137,7 +137,7 @@ Fixpoint traverse_sel (f : vsel -> vsel) (e : expr) : expr :=
   end.
 
 Definition opt_sort (e : expr) : expr :=
-  traverse_sel (fun v => mkVS (sort_matchers (vms v)) (vorig v) (voff v) (vat v) (vflt v)) e.
+  traverse_sel (fun v => mkVS (sort_matchers (vms v)) (vorig v) (voff v) (vat v) (vflt v) (vsyn v)) e.
 
 Definition opt_merge (e : expr) : expr := traverse_sel (merge_sel (build_heap e)) e.
 
@@ -164,10 +164,10 @@ Definition propagate_bin (op : string) (cd : card) (on : bool) (ml : list N) (l 
       match vflt lv, vflt rv with
       | None, None =>
           if is_comparison op || on || negb (Nat.eqb (List.length ml) 0) || negb (card_eqb cd OneToOne)
-             || N.eqb (vname lv) (vname rv)
+             || N.eqb (vsyn lv) (vsyn rv)     (* lhSelector.Name == rhSelector.Name: the syntactic names *)
           then (l, r)
-          else (EVec (mkVS (with_propagated (vms lv) (vms rv)) (vorig lv) (voff lv) (vat lv) None),
-                EVec (mkVS (with_propagated (vms rv) (vms lv)) (vorig rv) (voff rv) (vat rv) None))
+          else (EVec (mkVS (with_propagated (vms lv) (vms rv)) (vorig lv) (voff lv) (vat lv) None (vsyn lv)),
+                EVec (mkVS (with_propagated (vms rv) (vms lv)) (vorig rv) (voff rv) (vat rv) None (vsyn rv)))
       | _, _ => (l, r)
       end
   | _, _ => (l, r)
